@@ -374,6 +374,7 @@ impl<C: MlsConfig, E: ExternalMlsConfig + Clone> World<C, E> {
                             Proposal::Add(a) => json!({"k": "add", "id": name(a.signing_identity()), "by": sender}),
                             Proposal::Update(u) => json!({"k": "update", "id": name(u.signing_identity()), "by": sender}),
                             Proposal::Remove(r) => json!({"k": "remove", "idx": r.to_remove(), "by": sender}),
+                            Proposal::Psk(pp) => json!({"k": "psk", "by": sender, "enc": hex::encode(pp.mls_encode_to_vec().unwrap_or_default())}),
                             other => json!({"k": prop_kind(other), "by": sender}),
                         }
                     })
@@ -533,6 +534,15 @@ impl<C: MlsConfig, E: ExternalMlsConfig + Clone> World<C, E> {
                 }
                 for p in psks {
                     b = mls!(b.add_external_psk(mls_rs::psk::ExternalPskId::new(p)));
+                }
+                // PSKs in a given order: "e:<hex id>" external, "r:<epoch>" resumption
+                for item in op["psk_seq"].as_array().cloned().unwrap_or_default() {
+                    let it = item.as_str().unwrap_or("").to_string();
+                    if let Some(h) = it.strip_prefix("e:") {
+                        b = mls!(b.add_external_psk(mls_rs::psk::ExternalPskId::new(hex::decode(h).unwrap_or_default())));
+                    } else if let Some(e) = it.strip_prefix("r:") {
+                        b = mls!(b.add_resumption_psk(e.parse::<u64>().unwrap_or(0)));
+                    }
                 }
                 for e in res_psks {
                     b = mls!(b.add_resumption_psk(e));
@@ -776,6 +786,14 @@ impl<C: MlsConfig, E: ExternalMlsConfig + Clone> World<C, E> {
                     _ => Err("bad sweep target".into()),
                 }
             }
+            "secrets_dump" => {
+                // key schedule of the current epoch (through the hook) for the RFC comparison of C13
+                let g = grp!();
+                let (ks, res) = mls!(g.verif_epoch_secrets());
+                let ctx = mls!(g.context().mls_encode_to_vec());
+                Ok(json!({"ks": hex::encode(ks), "resumption": hex::encode(res), "ctx": hex::encode(ctx), "epoch": g.current_epoch(),
+                          "auth": hex::encode(mls!(g.epoch_authenticator()).as_bytes())}))
+            }
             "ctx_dump" => {
                 let g = grp!();
                 let ctx = mls!(g.context().mls_encode_to_vec());
@@ -994,8 +1012,15 @@ impl<C: MlsConfig, E: ExternalMlsConfig + Clone> World<C, E> {
             "obs_deliver" => {
                 let to = op["to"].as_str().unwrap_or("").to_string();
                 let msg = self.msg(op["msg"].as_str().unwrap_or(""))?;
+                let mid = op["msg"].as_str().unwrap_or("").to_string();
                 let g = self.observers.get_mut(&to).ok_or("no such observer")?;
                 let r = mls!(g.process_incoming_message(msg));
+                // the stateless-server pattern: what the observer would persist for a proposal
+                if let ExternalReceivedMessage::Proposal(p) = &r {
+                    if let Ok(b) = p.clone().cached_proposal().to_bytes() {
+                        self.msgs.insert(format!("cached:{mid}"), b);
+                    }
+                }
                 Ok(match &r {
                     ExternalReceivedMessage::Commit(c) => Self::describe_commit(c),
                     ExternalReceivedMessage::Proposal(p) => json!({"kind": "proposal", "ptype": prop_kind(&p.proposal)}),
@@ -1117,6 +1142,30 @@ impl<C: MlsConfig, E: ExternalMlsConfig + Clone> World<C, E> {
                     _ => return Err("bad obs_propose kind".into()),
                 };
                 self.msgs.insert(id, mls!(msg.to_bytes()));
+                Ok(json!({}))
+            }
+            "obs_snapshot" => {
+                let g = self.observers.get(&who).ok_or("no such observer")?;
+                let b = mls!(g.snapshot().to_bytes());
+                self.msgs.insert(id, b);
+                Ok(json!({}))
+            }
+            "obs_restore" => {
+                // load the observer from a snapshot taken earlier (what it held in memory since is gone)
+                let b = self.msgs.get(op["snap"].as_str().unwrap_or("")).cloned().ok_or("no snapshot")?;
+                let snap = mls!(ExternalSnapshot::from_bytes(&b));
+                let signer = self.obs_signer.get(&who).and_then(|n| self.members.get(n)).map(|m| (m.signer.clone(), m.identity.clone()));
+                let ec = (self.mk_obs)(op["jitter"].as_u64(), signer);
+                let g2 = mls!(ec.load_group(snap));
+                self.observers.insert(who.clone(), g2);
+                Ok(json!({}))
+            }
+            "obs_insert" => {
+                // re-insert a persisted proposal (ExternalGroup::insert_proposal)
+                let b = self.msgs.get(&format!("cached:{}", op["msg"].as_str().unwrap_or(""))).cloned().ok_or("no cached proposal")?;
+                let cp = mls!(mls_rs::group::CachedProposal::from_bytes(&b));
+                let g = self.observers.get_mut(&who).ok_or("no such observer")?;
+                g.insert_proposal(cp);
                 Ok(json!({}))
             }
             "obs_reload" => {
